@@ -608,6 +608,12 @@ func (i *Install) replaceRelease(rel *release.Release) error {
 	if last.Info.Status.IsPending() {
 		return errPending
 	}
+	// availableName only lets a replacing install through when the latest revision
+	// is uninstalled or failed. Any other status here means that a concurrent
+	// operation has created or completed a revision in the meantime.
+	if st := last.Info.Status; st != release.StatusUninstalled && st != release.StatusFailed {
+		return errors.New("cannot reuse a name that is still in use")
+	}
 
 	// Update version to the next available
 	rel.Version = last.Version + 1
